@@ -87,6 +87,19 @@ Theorem UnitLife_cancel_ends_delay :
 Proof. exact pt_cancel_ends_delay. Qed.
 Print Assumptions UnitLife_cancel_ends_delay.
 
+(* ... and the unit can always end from there: whatever state it is in when the cancel request has
+   been delivered, there is a continuation the environment can produce (the child's exit is
+   reported, the leak timeout passes, the repeated OtherCancel is consumed, the handshake is
+   refused) after which the unit has ended without a further attempt -- and, for [unicast = true],
+   necessarily without any time in a retry delay (the theorem above). *)
+Theorem UnitLife_ends_after_cancel :
+  forall unicast c es1 y1,
+  lsys_run unicast pause_table c (lsys0 c) es1 = LOk y1 -> lt_cancel (y_t y1) = true ->
+  exists es2 y2, lsys_run unicast pause_table c y1 es2 = LOk y2 /\ terminal (y_s y2) = true /\
+                 l_k (y_s y2) = l_k (y_s y1).
+Proof. exact pt_ends_after_cancel. Qed.
+Print Assumptions UnitLife_ends_after_cancel.
+
 (* Information requests over the whole life: exactly one response in each of the four wait loops,
    tagged with that loop (running / terminating / exiting / delay), and no change of state. *)
 Theorem UnitLife_info_once :
